@@ -7,7 +7,7 @@
         (log estimate whose power overflows; see KNOWN_FINDINGS u128_log_overestimate / u256_log_overestimate)
      7  model ran out of fuel *)
 From Coq Require Import NArith List Bool.
-From SwayV Require Import Vm.Alu C27.NumModel C27.CollModel C27.Spec C27.CollSpec.
+From SwayV Require Import Vm.Alu C27.NumModel C27.CollModel C27.Spec C27.CollSpec C27.LogSpec.
 Import ListNotations.
 Local Open Scope N_scope.
 
@@ -149,11 +149,8 @@ Definition spec_num (op : numop) (args : list N) : sres :=
    not fit the type, because the overflow of `pow` is not observed. *)
 Definition known_num (op : numop) (args : list N) : bool :=
   match op, args with
-  | QLog, [a; b; c; d] =>
-    let x := v128 a b in let base := v128 c d in
-    (2 <=? base) && (base <=? x) && (2 ^ 128 <=? base ^ (N.log2 x / N.log2 base))
-  | YLog, [x; base] =>
-    (2 <=? base) && (base <=? x) && (2 ^ 256 <=? base ^ (N.log2 x / N.log2 base))
+  | QLog, [a; b; c; d] => log_known 128 (v128 a b) (v128 c d)
+  | YLog, [x; base] => log_known 256 x base
   | _, _ => false
   end.
 
